@@ -1,6 +1,7 @@
 #![allow(dead_code)]
 mod alloc_guard;
 mod core;
+mod nsim;
 mod panics;
 mod registry;
 mod rng;
@@ -50,6 +51,28 @@ fn main() {
             }
             let log = args.iter().any(|a| a == "--log");
             std::process::exit(supervisor::replay(&args[2], log));
+        }
+        "hashes" => {
+            // dst hashes <property> <family> <start> <count> [step]: prints "index trace full" per run
+            // (used by the determinism gate: outputs of separate processes must be identical)
+            if args.len() < 6 {
+                usage();
+            }
+            panics::install();
+            let fam = registry::family(&args[3]).unwrap_or_else(|| usage());
+            let start: u64 = args[4].parse().unwrap_or(0);
+            let count: u64 = args[5].parse().unwrap_or(1);
+            let step: u64 = args.get(6).and_then(|s| s.parse().ok()).unwrap_or(1);
+            let seed = supervisor::seed_from_env();
+            let warm = worker::make_script(&args[2], fam, Tier::Quick, 0x5EED_0000_0000_0001, 0, 1);
+            let _ = worker::run_script(&warm, false);
+            let mut i = start;
+            for _ in 0..count {
+                let sc = worker::make_script(&args[2], fam, Tier::Quick, seed, i, 1);
+                let o = worker::run_script(&sc, false);
+                println!("{i} {:016x} {:016x} v={} nv={}", o.trace_hash, o.full_hash, o.violations.len(), o.virtual_ms);
+                i += step;
+            }
         }
         "gen" => {
             if args.len() < 5 {
